@@ -686,6 +686,12 @@ pub fn main_c03(args: &Args) -> std::io::Result<()> {
                 let mut r2 = Rng::new(9);
                 if direct_coverage(&exact, &pos, &tris, rule, stol as f64 * 4.0 + poly_err + 1e-4, &mut r2, true).is_none() {
                     fields.push(("class", jstr("K10")));
+                } else {
+                    // K15: arcs become quadratic Beziers spanning an eighth of a turn, whatever the tolerance: 0.0031 r off
+                    let mut r3 = Rng::new(9);
+                    if direct_coverage(&exact, &pos, &tris, rule, stol as f64 * 1.5 + 0.0035 * rmax + poly_err + 1e-4, &mut r3, true).is_none() {
+                        fields.push(("class", jstr("K15")));
+                    }
                 }
             }
             st.fail(jobj(&fields));
@@ -806,6 +812,108 @@ pub fn main_c03(args: &Args) -> std::io::Result<()> {
                 }
             }
             let _ = it;
+        }
+    }
+    // add_circle / add_ellipse / add_rectangle with both windings, through the fill builder and through a Path
+    {
+        let n_sh = if args.thorough() { 2000 } else { 300 };
+        for it in 0..n_sh {
+            let ctr = point(rng.range(-10, 10) as f32, rng.range(-10, 10) as f32);
+            let winding = if rng.chance(1, 2) { Winding::Positive } else { Winding::Negative };
+            let tol = *rng.pick(&[0.02f32, 0.1]);
+            let rule = if rng.chance(1, 2) { FillRule::EvenOdd } else { FillRule::NonZero };
+            let orient = if rng.chance(1, 2) { Orientation::Vertical } else { Orientation::Horizontal };
+            let opts = FillOptions::tolerance(tol).with_fill_rule(rule).with_sweep_orientation(orient);
+            let via_path = rng.chance(1, 2);
+            let kind = it % 3;
+            let (r1, r2) = (2.0 + rng.below(60) as f32 * 0.5, 2.0 + rng.below(60) as f32 * 0.5);
+            // ellipses: moderate eccentricity (K10 is about eccentric ones) 
+            let (rx, ry) = if kind == 1 { (r1, r1 * (0.6 + 0.8 * rng.unit_f64() as f32)) } else { (r1, r2) };
+            let rot = rng.range(0, 6) as f32 * 0.5;
+            let label = format!("{} centre {:?} r ({}, {}) rot {} {:?} tol {} {:?} {:?} via {}", ["add_circle", "add_ellipse", "add_rectangle"][kind], ctr, rx, ry, rot, winding, tol, rule, orient, if via_path { "Path" } else { "FillBuilder" });
+            st.inc("evaluations");
+            st.inc("path_level_shapes");
+            st.note_case(&label, true);
+            let rect = Box2D { min: ctr, max: point(ctr.x + rx, ctr.y + ry) };
+            let r = catch(AssertUnwindSafe(|| {
+                let mut buffers: VertexBuffers<Point, u32> = VertexBuffers::new();
+                let mut tess = FillTessellator::new();
+                let ok = if via_path {
+                    let mut pb = lyon_path::Path::builder();
+                    match kind {
+                        0 => pb.add_circle(ctr, rx, winding),
+                        1 => pb.add_ellipse(ctr, vector(rx, ry), Angle::radians(rot), winding),
+                        _ => pb.add_rectangle(&rect, winding),
+                    }
+                    let p = pb.build();
+                    tess.tessellate_path(&p, &opts, &mut lyon_tessellation::geometry_builder::BuffersBuilder::new(&mut buffers, lyon_tessellation::geometry_builder::Positions)).is_ok()
+                } else {
+                    let mut sb = lyon_tessellation::geometry_builder::BuffersBuilder::new(&mut buffers, lyon_tessellation::geometry_builder::Positions);
+                    let mut b = tess.builder(&opts, &mut sb);
+                    match kind {
+                        0 => b.add_circle(ctr, rx, winding),
+                        1 => b.add_ellipse(ctr, vector(rx, ry), Angle::radians(rot), winding),
+                        _ => b.add_rectangle(&rect, winding),
+                    }
+                    lyon_path::traits::Build::build(b).is_ok()
+                };
+                (ok, buffers)
+            }));
+            let (ok, buffers) = match r {
+                Some(x) => x,
+                None => {
+                    st.fail(jobj(&[("what", jstr("filling a path-level shape panicked")), ("input", jstr(&label))]));
+                    continue;
+                }
+            };
+            if !ok {
+                st.fail(jobj(&[("what", jstr("filling a path-level shape failed")), ("input", jstr(&label))]));
+                continue;
+            }
+            // inside the shape shrunk (m < 0) / grown (m > 0) by |m|
+            let inside = |q: (f64, f64), m: f64| -> bool {
+                match kind {
+                    0 => (q.0 - ctr.x as f64).hypot(q.1 - ctr.y as f64) < rx as f64 + m,
+                    1 => {
+                        let (c0, s0) = ((rot as f64).cos(), (rot as f64).sin());
+                        let (dx, dy) = (q.0 - ctr.x as f64, q.1 - ctr.y as f64);
+                        let (u, v) = (c0 * dx + s0 * dy, -s0 * dx + c0 * dy);
+                        let (a, b) = (rx as f64 + m, ry as f64 + m);
+                        a > 0.0 && b > 0.0 && (u / a).powi(2) + (v / b).powi(2) < 1.0
+                    }
+                    _ => q.0 > rect.min.x as f64 - m && q.0 < rect.max.x as f64 + m && q.1 > rect.min.y as f64 - m && q.1 < rect.max.y as f64 + m,
+                }
+            };
+            let tris: Vec<(u32, u32, u32)> = buffers.indices.chunks(3).map(|t| (t[0], t[1], t[2])).collect();
+            // ellipses: the radii-offset ellipse is only an approximation of the parallel curve: wider margin
+            let m = if kind == 1 { 3.0 * tol as f64 + 0.02 * rx.max(ry) as f64 } else { tol as f64 + 1e-3 };
+            let ext = rx.max(ry) as f64 + 2.0;
+            let g = 36;
+            let mut reported = false;
+            for gy in 0..=g {
+                for gx in 0..=g {
+                    let base = if kind == 2 { (ctr.x as f64 + rx as f64 * 0.5, ctr.y as f64 + ry as f64 * 0.5) } else { (ctr.x as f64, ctr.y as f64) };
+                    let q = (base.0 - ext + 2.0 * ext * (gx as f64 + 0.31) / g as f64, base.1 - ext + 2.0 * ext * (gy as f64 + 0.47) / g as f64);
+                    let (closed, _) = cover_f64(q, &buffers.vertices, &tris);
+                    let bad = if inside(q, -m) && closed == 0 {
+                        Some("a point of a path-level shape farther than the tolerance from its boundary is not covered")
+                    } else if !inside(q, m) && closed > 0 {
+                        Some("a point outside a path-level shape, farther than the tolerance from its boundary, is covered")
+                    } else {
+                        None
+                    };
+                    if let (Some(b), false) = (bad, reported) {
+                        let mut f = vec![("what", jstr(b)), ("input", jstr(&format!("point {:?} :: {}", q, label)))];
+                        // K15 (circles and ellipses built from eighth-of-a-turn quadratic Beziers): gone with 0.0035 r more
+                        let m15 = m + 0.0035 * rx.max(ry) as f64;
+                        if kind != 2 && !(inside(q, -m15) && closed == 0) && !(!inside(q, m15) && closed > 0) {
+                            f.push(("class", jstr("K15")));
+                        }
+                        st.fail(jobj(&f));
+                        reported = true;
+                    }
+                }
+            }
         }
     }
     w.finish()?;
